@@ -5,7 +5,7 @@ import KitModel.Containers
 Driver for property C14: `kitdrv C14` reads op lines on stdin, one answer line per input line.
 
 ring (node ids = allocation order, shared with the harness):
-  `reset` · `rnew n=` · `rzero` · `rnext p=` · `rprev p=` · `rmove p= n=` · `rlink p= s=<id|nil>` ·
+  `reset` · `rnew n=` · `rzero` · `rlit v=` · `rnext p=` · `rprev p=` · `rmove p= n=` · `rlink p= s=<id|nil>` ·
   `runlink p= n=` · `rlen p=<id|nil>` · `rdo p=<id|nil>` · `rset p= v=` · `rget p=` · `rdump`
 buffered: `bnew init= bsize=` · `bapp v=<n|nil>` · `brem` · `bfront` · `blen` · `brange stop=<n|nil|never>` · `bring`
 linearizability: `lin obj=<map|ctr|amap|slice> h=<ev;ev;…>` with `ev = I/<t>/<op>/<args>/<res>` or `R/<t>`
@@ -145,6 +145,10 @@ def step (st : St) (raw : String) : St × String :=
     | some n => let (h, r) := Ring.new st.heap n (0 : Int); ({ st with heap := h }, showOpt r)
     | none => bad
   | "rzero" => let (h, r) := alloc st.heap (0 : Int); ({ st with heap := h }, toString r)
+  | "rlit" =>
+    match l.int? "v" with
+    | some v => let (h, r) := alloc st.heap v; ({ st with heap := h }, toString r)
+    | none => bad
   | "rnext" => match ptr? st l "p" with | some p => (st, toString (next st.heap p)) | none => bad
   | "rprev" => match ptr? st l "p" with | some p => (st, toString (prev st.heap p)) | none => bad
   | "rmove" =>
